@@ -36,6 +36,7 @@ import buildkit
 import kcorr
 import projgen
 from common import Finding
+from simdirector import A, Project, SimDirector
 
 PID = "C01"
 LEVEL = "proof"
@@ -302,6 +303,70 @@ def _ran_during_creator_rerun(results, final, step_key: str) -> bool:
     return False
 
 
+# ---------------------------------------------------------------------------------------------
+# Second family: a step is redefined with one property changed and everything else equal
+# ---------------------------------------------------------------------------------------------
+
+TARGET = "tgt -e"
+TARGET_SCRIPT = [A.read_declared(), A.getenv("OVR"), A.write_declared()]
+
+
+def redef_project(inputs: str, shell: bool, ovr: str | None, resources: dict, optional: bool, a_text: str) -> Project:
+    inp = {"none": [], "static": ["a.txt"], "built": ["g.txt"]}[inputs]
+    plan = [A.static("a.txt"), A.step("gen", inp=["a.txt"], out=["g.txt"]),
+            A.step(TARGET, inp=inp, out=["t.txt"], shell=shell, env_overrides=({"OVR": ovr} if ovr else None),
+                   resources=resources, optional=optional),
+            A.step("use", inp=["t.txt"], out=["u.txt"])]
+    return Project(scripts={"./plan.py": plan, TARGET: TARGET_SCRIPT}, files={"a.txt": a_text})
+
+
+def run_redef_case(ctx, index: int, *, salt="redef"):
+    """build; redefine `tgt -e` with exactly one of shell / env_overrides / resources / need changed
+    (sometimes together with an edit of the source); build; compare with a build from scratch."""
+    r = ctx.rng(salt, index)
+    inputs = r.choice(["none", "none", "static", "built"])
+    prop = r.choice(["env_overrides", "env_overrides", "shell", "resources", "need"])
+    base = {"shell": False, "ovr": r.choice([None, "one"]), "resources": {}, "optional": False}
+    new = dict(base)
+    if prop == "env_overrides":
+        new["ovr"] = "two" if base["ovr"] != "two" else None
+    elif prop == "shell":
+        new["shell"] = True
+    elif prop == "resources":
+        new["resources"] = {"cpu": 1}
+    else:
+        new["optional"] = True
+    edit_source = r.random() < 0.3
+    first = redef_project(inputs, base["shell"], base["ovr"], base["resources"], base["optional"], "A0\n")
+    last = redef_project(inputs, new["shell"], new["ovr"], new["resources"], new["optional"],
+                         "A1\n" if edit_source else "A0\n")
+    seed = r.randrange(1 << 30)
+    kwargs = {"njob": r.randint(1, 3), "resources": "cpu:2"}
+    with SimDirector(first, seed=seed) as sim:
+        r1 = sim.build(**kwargs)
+        edits = [("script", "./plan.py", last.scripts["./plan.py"], "plan.py")]
+        if edit_source:
+            edits.append(("write", "a.txt", "A1\n"))
+        sim.apply(edits)
+        r2 = sim.build(**kwargs)
+    with SimDirector(last, seed=seed + 1) as sim:
+        fresh = sim.build(**kwargs)
+    case = {"inputs": inputs, "changed": prop, "from": base, "to": new, "edit_source": edit_source}
+    found = []
+    if not (r1.ok and r2.ok and fresh.ok):
+        if fresh.ok and r1.ok:
+            found.append(("incremental-build-fails", f"redefining {prop} of a step: {r2.status} {r2.returncode!r}", case))
+        return found, case
+    for sig, what, extra in compare(r2, fresh):
+        if sig in ("stale-output", "succeeded-step-digest-differs") or sig.startswith("graph-differs:step.resource"):
+            found.append((f"redefinition-not-noticed:{prop}",
+                          f"a step redefined with only {prop} changed ({base} -> {new}; inputs: {inputs}) is recycled as "
+                          f"up to date: {what}", {**case, **extra}))
+        else:
+            found.append((sig, what, {**case, **extra}))
+    return found, case
+
+
 def report(ctx, index, salt, found, hist):
     for sig, what, extra in found:
         if sig.startswith("out-of-scope:"):
@@ -359,6 +424,20 @@ async def search(ctx):
         report(ctx, i, "hist", found, hist)
         if stop:
             break
+    for i in range(ctx.budget(24, 400)):
+        found, case = await asyncio.to_thread(run_redef_case, ctx, i)
+        st.case(("redef", tuple(sorted((k, str(v)) for k, v in case.items()))))
+        st.programs += 1
+        st.count(f"redefinition:{case['changed']}:inputs-{case['inputs']}")
+        for sig, what, extra in found:
+            if sig.startswith("out-of-scope:"):
+                st.count(sig)
+                continue
+            st.count("finding:" + sig)
+            ctx.finding(Finding(PID, sig, what, {
+                "case": {"verif_seed": ctx.seed, "salt": "redef", "index": i}, **extra,
+                "how": "props/c01.py run_redef_case(ctx, index): build, redefine one property of `tgt -e`, build, "
+                       "compare with a build from scratch of the final project"}))
     if not st.rule:
         st.rule = ("a case is one history: a projgen project (2-8 steps, static files, a static tree, a glob family, "
                    "sub-plan, optional steps, amended inputs/outputs, env vars, resources) followed by 1-4 phases of 1-2 "
@@ -384,7 +463,11 @@ async def replay(ctx, detail):
     case = d.get("case", {})
     os.environ["VERIF_SEED"] = str(case.get("verif_seed", 0))
     ctx.seed = int(case.get("verif_seed", 0))
-    found, summary, hist = await asyncio.to_thread(run_case, ctx, int(case.get("index", 0)), salt=case.get("salt", "hist"))
     sig = detail.get("signature", "")
+    if case.get("salt") == "redef":
+        found, summary = await asyncio.to_thread(run_redef_case, ctx, int(case.get("index", 0)))
+    else:
+        found, summary, hist = await asyncio.to_thread(run_case, ctx, int(case.get("index", 0)),
+                                                       salt=case.get("salt", "hist"))
     return {"reproduced": any(s == sig for s, _, _ in found), "signature": sig,
             "found": [[s, w] for s, w, _ in found], "summary": summary}
